@@ -22,7 +22,7 @@ for d in sorted(glob.glob(os.path.join(HERE, 'seeded', '*'))):
       break
   evs = m.get('evaluations', [])
   missed_first = bool(evs) and not evs[0].get('caught_by') and bool(m.get('caught_by'))
-  status = ', '.join(m.get('caught_by', [])) or 'MISSED'
+  status = ', '.join(m.get('caught_by', [])) or ('superseded by a repair of /repo (see notes)' if m.get('superseded') else 'MISSED')
   if missed_first or (m.get('notes') and 'first evaluation' in m['notes']):
     status += ' (after strengthening)'
   rows.append('| %s | %s%s | %s | %s | %s |' % (os.path.basename(d), ', '.join(files), (' (' + ', '.join(funcs[:2]) + ')') if funcs else '',
